@@ -3,6 +3,7 @@
 """
 This module contains methods to compute note-level features.
 """
+import copy
 import sys
 import warnings
 import numpy as np
@@ -75,6 +76,29 @@ def list_note_feats_functions():
     return bfs
 
 
+def _merged_view(part: ScoreLike) -> score.Part:
+    """A single part with the elements of all parts of `part`.
+
+    `merge_parts` moves the elements of its input into the part it returns
+    (it rescales their times and renumbers their voices). Features and note
+    arrays are views of a score, so several parts are merged from a deep copy
+    and the caller's parts stay as they are; a single part is used as it is.
+    """
+    if isinstance(part, score.Score):
+        parts = part.parts
+    else:
+        parts = list(score.iter_parts(part))
+    if len(set(id(p) for p in parts)) > 1:
+        # the time points of a part are linked: copying them recurses deeply
+        old_recursion_depth = sys.getrecursionlimit()
+        sys.setrecursionlimit(max(old_recursion_depth, 10000))
+        try:
+            parts = copy.deepcopy(parts)
+        finally:
+            sys.setrecursionlimit(old_recursion_depth)
+    return score.merge_parts(parts)
+
+
 def make_note_features(
     part: ScoreLike,
     feature_functions: Union[List, str],
@@ -122,10 +146,7 @@ def make_note_features(
     names : list
         The feature names
     """
-    if isinstance(part, score.Score):
-        part = score.merge_parts(part.parts)
-    else:
-        part = score.merge_parts(part)
+    part = _merged_view(part)
     na = ensure_notearray(
         part,
         include_metrical_position=True,
@@ -254,10 +275,7 @@ def make_rest_features(
     names : list
         The feature names
     """
-    if isinstance(part, score.Score):
-        part = score.merge_parts(part.parts)
-    else:
-        part = score.merge_parts(part)
+    part = _merged_view(part)
     na = ensure_rest_array(
         part,
         include_metrical_position=True,
@@ -418,10 +436,7 @@ def compute_note_array(
 
     note_array : structured array
     """
-    if isinstance(part, score.Score):
-        part = score.merge_parts(part.parts)
-    else:
-        part = score.merge_parts(part)
+    part = _merged_view(part)
     na = ensure_notearray(
         part,
         include_pitch_spelling=include_pitch_spelling,
